@@ -1,1 +1,440 @@
-/-! Property theorems for C14 — placeholder until the property's model is built. -/
+import FcpptProofs.C14.Old
+import FcpptProofs.C14.Bits
+/-!
+# C14 — vector, dim and matrix arithmetic obeys the exact ring and module laws
+
+Model: `FcpptModel/Model/C14.lean` (row-major storage, the folds and index arithmetic of the headers).
+Meaning: `Mat.toMatrix : Mat r c → Matrix (Fin r) (Fin c) ℤ` (read through `at_r_c`) and
+`Storage.toFun : Storage n → (Fin n → ℤ)`; the laws are Mathlib's theorems about `Matrix`, transported.
+Every theorem holds for all sizes and for every storage kind (static, row view, buffer view) of the operands;
+results of operators are static objects, so laws between results are equalities of objects.
+`dim` has the same operators as `vector` (`dim/arithmetic.hpp` is the same text): the vector theorems are the dim theorems.
+-/
+namespace Fcppt.C14
+open Matrix
+
+/-! ## 1. the model denotes Mathlib's matrix operations -/
+
+/-- row-major layout: `at_r_c<i, j>` (row view with offset `i * columns`, element `j`) reads storage element `i * columns + j` -/
+theorem atRC_eq_entry {r c : Nat} (m : Mat r c) (i : Fin r) (j : Fin c) : m.atRC i j = m.s.get ⟨i.val * c + j.val, index_lt i j⟩ :=
+  Lemma.atRC_eq_entry m i j
+
+/-- `matrix::init<M>(f)` (absolute index → `index_absolute`) has entry `f i j` at `(i, j)` -/
+theorem atRC_init {r c : Nat} (f : Fin r → Fin c → Int) (i : Fin r) (j : Fin c) : (Mat.init f).atRC i j = f i j :=
+  Lemma.atRC_init f i j
+
+theorem toMatrix_add {r c : Nat} (a b : Mat r c) : (a.add b).toMatrix = a.toMatrix + b.toMatrix := Lemma.toMatrix_add a b
+theorem toMatrix_sub {r c : Nat} (a b : Mat r c) : (a.sub b).toMatrix = a.toMatrix - b.toMatrix := Lemma.toMatrix_sub a b
+theorem toMatrix_smulR {r c : Nat} (a : Mat r c) (k : Int) : (a.smulR k).toMatrix = k • a.toMatrix := Lemma.toMatrix_smulR a k
+theorem toMatrix_smulL {r c : Nat} (k : Int) (a : Mat r c) : (Mat.smulL k a).toMatrix = k • a.toMatrix := Lemma.toMatrix_smulL k a
+theorem toMatrix_mul {m n p : Nat} (a : Mat m n) (b : Mat n p) : (a.mul b).toMatrix = a.toMatrix * b.toMatrix := Lemma.toMatrix_mul a b
+theorem toFun_mulVec {r c : Nat} (a : Mat r c) (v : Vec c) : (a.mulVec v).toFun = a.toMatrix.mulVec v.toFun := Lemma.toFun_mulVec a v
+theorem toMatrix_transpose {r c : Nat} (a : Mat r c) : a.transpose.toMatrix = a.toMatrixᵀ := Lemma.toMatrix_transpose a
+theorem toMatrix_identity (n : Nat) : (Mat.identity n).toMatrix = 1 := Lemma.toMatrix_identity n
+
+/-- `deleted_index(cur, rem)` is `Fin.succAbove rem cur` -/
+theorem deletedIndex_eq_succAbove {n : Nat} (p : Fin (n + 1)) (i : Fin n) : deletedIndex i.val p.val = (p.succAbove i).val :=
+  Lemma.deletedIndex_succAbove p i
+
+theorem toMatrix_deleteRowAndColumn {r c : Nat} (dr : Fin (r + 1)) (dc : Fin (c + 1)) (a : Mat (r + 1) (c + 1)) :
+    (a.deleteRowAndColumn dr.val dc.val).toMatrix = a.toMatrix.submatrix dr.succAbove dc.succAbove :=
+  Lemma.toMatrix_deleteRowAndColumn dr dc a
+
+/-- the Laplace expansion of `matrix/detail/determinant.hpp` is the determinant, for every `N` (including 0 and 1) -/
+theorem det_eq {n : Nat} (a : Mat n n) : a.det = a.toMatrix.det := Lemma.det_eq a
+
+/-- `matrix::adjugate` is the adjugate, for every `N` -/
+theorem adjugate_eq {n : Nat} (a : Mat n n) : a.adjugate.toMatrix = a.toMatrix.adjugate := Lemma.adjugate_eq a
+
+/-- all operator results are static objects: two results that denote the same matrix are the same object -/
+theorem ext_static {r c : Nat} {a b : Mat r c} (ha : a.IsStatic) (hb : b.IsStatic) (h : a.toMatrix = b.toMatrix) : a = b :=
+  Lemma.Mat.ext_static ha hb h
+
+/-! ## 2. ring and module laws, all sizes -/
+
+theorem mul_assoc {m n p q : Nat} (a : Mat m n) (b : Mat n p) (c : Mat p q) : (a.mul b).mul c = a.mul (b.mul c) :=
+  Lemma.Mat.ext_static (Lemma.Mat.isStatic_mul _ _) (Lemma.Mat.isStatic_mul _ _)
+    (by simp only [Lemma.toMatrix_mul, Matrix.mul_assoc])
+
+theorem mul_add {m n p : Nat} (a : Mat m n) (b c : Mat n p) : a.mul (b.add c) = (a.mul b).add (a.mul c) :=
+  Lemma.Mat.ext_static (Lemma.Mat.isStatic_mul _ _) (Lemma.Mat.isStatic_add _ _)
+    (by simp only [Lemma.toMatrix_mul, Lemma.toMatrix_add, Matrix.mul_add])
+
+theorem add_mul {m n p : Nat} (a b : Mat m n) (c : Mat n p) : (a.add b).mul c = (a.mul c).add (b.mul c) :=
+  Lemma.Mat.ext_static (Lemma.Mat.isStatic_mul _ _) (Lemma.Mat.isStatic_add _ _)
+    (by simp only [Lemma.toMatrix_mul, Lemma.toMatrix_add, Matrix.add_mul])
+
+theorem mul_sub {m n p : Nat} (a : Mat m n) (b c : Mat n p) : a.mul (b.sub c) = (a.mul b).sub (a.mul c) :=
+  Lemma.Mat.ext_static (Lemma.Mat.isStatic_mul _ _) (Lemma.Mat.isStatic_sub _ _)
+    (by simp only [Lemma.toMatrix_mul, Lemma.toMatrix_sub, Matrix.mul_sub])
+
+theorem add_comm {r c : Nat} (a b : Mat r c) : a.add b = b.add a :=
+  Lemma.Mat.ext_static (Lemma.Mat.isStatic_add _ _) (Lemma.Mat.isStatic_add _ _)
+    (by simp only [Lemma.toMatrix_add, _root_.add_comm])
+
+theorem add_assoc {r c : Nat} (a b d : Mat r c) : (a.add b).add d = a.add (b.add d) :=
+  Lemma.Mat.ext_static (Lemma.Mat.isStatic_add _ _) (Lemma.Mat.isStatic_add _ _)
+    (by simp only [Lemma.toMatrix_add, _root_.add_assoc])
+
+theorem add_sub_cancel {r c : Nat} (a b : Mat r c) : ((a.add b).sub b).toMatrix = a.toMatrix := by
+  simp [Lemma.toMatrix_add, Lemma.toMatrix_sub]
+
+/-- `matrix * scalar` and `scalar * matrix` agree -/
+theorem smulR_eq_smulL {r c : Nat} (a : Mat r c) (k : Int) : a.smulR k = Mat.smulL k a :=
+  Lemma.Mat.ext_static (Lemma.Mat.isStatic_smulR _ _) (Lemma.Mat.isStatic_smulL _ _)
+    (by rw [Lemma.toMatrix_smulR, Lemma.toMatrix_smulL])
+
+theorem smul_mul {m n p : Nat} (k : Int) (a : Mat m n) (b : Mat n p) : (Mat.smulL k a).mul b = Mat.smulL k (a.mul b) :=
+  Lemma.Mat.ext_static (Lemma.Mat.isStatic_mul _ _) (Lemma.Mat.isStatic_smulL _ _)
+    (by simp only [Lemma.toMatrix_mul, Lemma.toMatrix_smulL, Matrix.smul_mul])
+
+theorem mul_smul {m n p : Nat} (k : Int) (a : Mat m n) (b : Mat n p) : a.mul (Mat.smulL k b) = Mat.smulL k (a.mul b) :=
+  Lemma.Mat.ext_static (Lemma.Mat.isStatic_mul _ _) (Lemma.Mat.isStatic_smulL _ _)
+    (by simp only [Lemma.toMatrix_mul, Lemma.toMatrix_smulL, Matrix.mul_smul])
+
+theorem smul_add {r c : Nat} (k : Int) (a b : Mat r c) : Mat.smulL k (a.add b) = (Mat.smulL k a).add (Mat.smulL k b) :=
+  Lemma.Mat.ext_static (Lemma.Mat.isStatic_smulL _ _) (Lemma.Mat.isStatic_add _ _)
+    (by simp only [Lemma.toMatrix_add, Lemma.toMatrix_smulL, _root_.smul_add])
+
+/-- the identity is neutral (stated on the denotation: the operand itself may be a view, the product is a static copy) -/
+theorem mul_identity {m n : Nat} (a : Mat m n) : (a.mul (Mat.identity n)).toMatrix = a.toMatrix := by
+  rw [Lemma.toMatrix_mul, Lemma.toMatrix_identity, Matrix.mul_one]
+theorem identity_mul {m n : Nat} (a : Mat m n) : ((Mat.identity m).mul a).toMatrix = a.toMatrix := by
+  rw [Lemma.toMatrix_mul, Lemma.toMatrix_identity, Matrix.one_mul]
+
+/-- transpose is an involution -/
+theorem transpose_transpose {r c : Nat} (a : Mat r c) : a.transpose.transpose.toMatrix = a.toMatrix := by
+  rw [Lemma.toMatrix_transpose, Lemma.toMatrix_transpose, Matrix.transpose_transpose]
+
+/-- on results (static objects) the involution is an equality of objects -/
+theorem transpose_transpose_static {r c : Nat} (a : Mat r c) (h : a.IsStatic) : a.transpose.transpose = a :=
+  Lemma.Mat.ext_static (Lemma.Mat.isStatic_transpose _) h (transpose_transpose a)
+
+/-- `(AB)ᵀ = BᵀAᵀ` -/
+theorem transpose_mul {m n p : Nat} (a : Mat m n) (b : Mat n p) : (a.mul b).transpose = b.transpose.mul a.transpose :=
+  Lemma.Mat.ext_static (Lemma.Mat.isStatic_transpose _) (Lemma.Mat.isStatic_mul _ _)
+    (by simp only [Lemma.toMatrix_mul, Lemma.toMatrix_transpose, Matrix.transpose_mul])
+
+theorem transpose_add {r c : Nat} (a b : Mat r c) : (a.add b).transpose = a.transpose.add b.transpose :=
+  Lemma.Mat.ext_static (Lemma.Mat.isStatic_transpose _) (Lemma.Mat.isStatic_add _ _)
+    (by simp only [Lemma.toMatrix_add, Lemma.toMatrix_transpose, Matrix.transpose_add])
+
+/-- the determinant is multiplicative -/
+theorem det_mul {n : Nat} (a b : Mat n n) : (a.mul b).det = a.det * b.det := by
+  rw [Lemma.det_eq, Lemma.det_eq, Lemma.det_eq, Lemma.toMatrix_mul, Matrix.det_mul]
+
+theorem det_transpose {n : Nat} (a : Mat n n) : a.transpose.det = a.det := by
+  rw [Lemma.det_eq, Lemma.det_eq, Lemma.toMatrix_transpose, Matrix.det_transpose]
+
+theorem det_identity (n : Nat) : (Mat.identity n).det = 1 := by
+  rw [Lemma.det_eq, Lemma.toMatrix_identity, Matrix.det_one]
+
+theorem det_smul {n : Nat} (k : Int) (a : Mat n n) : (Mat.smulL k a).det = k ^ n * a.det := by
+  rw [Lemma.det_eq, Lemma.det_eq, Lemma.toMatrix_smulL, Matrix.det_smul, Fintype.card_fin]
+
+/-- `A * adjugate(A) = det(A) * identity` -/
+theorem mul_adjugate {n : Nat} (a : Mat n n) : a.mul a.adjugate = Mat.smulL a.det (Mat.identity n) :=
+  Lemma.Mat.ext_static (Lemma.Mat.isStatic_mul _ _) (Lemma.Mat.isStatic_smulL _ _)
+    (by rw [Lemma.toMatrix_mul, Lemma.adjugate_eq, Lemma.toMatrix_smulL, Lemma.toMatrix_identity, Lemma.det_eq, Matrix.mul_adjugate])
+
+theorem adjugate_mul {n : Nat} (a : Mat n n) : a.adjugate.mul a = Mat.smulL a.det (Mat.identity n) :=
+  Lemma.Mat.ext_static (Lemma.Mat.isStatic_mul _ _) (Lemma.Mat.isStatic_smulL _ _)
+    (by rw [Lemma.toMatrix_mul, Lemma.adjugate_eq, Lemma.toMatrix_smulL, Lemma.toMatrix_identity, Lemma.det_eq, Matrix.adjugate_mul])
+
+/-- `inverse` divides by the determinant: undefined for a singular matrix -/
+theorem inverse_singular {n : Nat} (a : Mat n n) (h : a.det = 0) : a.inverse = .error .divZero := by
+  simp [Mat.inverse, h]
+
+theorem inverse_regular {n : Nat} (a : Mat n n) (h : a.det ≠ 0) : a.inverse = .ok (Mat.smulL (Int.tdiv 1 a.det) a.adjugate) := by
+  simp [Mat.inverse, h]
+
+/-- over the integers `inverse` is the inverse exactly for unimodular matrices -/
+theorem inverse_unimodular {n : Nat} (a : Mat n n) (h : a.det = 1 ∨ a.det = -1) :
+    ∃ b, a.inverse = .ok b ∧ (a.mul b).toMatrix = 1 ∧ (b.mul a).toMatrix = 1 := by
+  have hne : a.det ≠ 0 := by rcases h with h | h <;> omega
+  refine ⟨_, inverse_regular a hne, ?_, ?_⟩
+  · rw [Lemma.toMatrix_mul, Lemma.toMatrix_smulL, Lemma.adjugate_eq, Matrix.mul_smul, Matrix.mul_adjugate, ← Lemma.det_eq, smul_smul]
+    rcases h with h | h <;> simp [h]
+  · rw [Lemma.toMatrix_mul, Lemma.toMatrix_smulL, Lemma.adjugate_eq, Matrix.smul_mul, Matrix.adjugate_mul, ← Lemma.det_eq, smul_smul]
+    rcases h with h | h <;> simp [h]
+
+/-- for `|det| > 1` the integer quotient `1 / det` is 0: `inverse` returns the zero matrix -/
+theorem inverse_nonunimodular {n : Nat} (a : Mat n n) (h : 1 < a.det ∨ a.det < -1) :
+    ∃ b, a.inverse = .ok b ∧ b.toMatrix = 0 := by
+  have hne : a.det ≠ 0 := by rcases h with h | h <;> omega
+  refine ⟨_, inverse_regular a hne, ?_⟩
+  have : Int.tdiv 1 a.det = 0 := by
+    rcases h with h | h
+    · exact Int.tdiv_eq_zero_of_lt (by omega) h
+    · have h1 : Int.tdiv 1 (-a.det) = 0 := Int.tdiv_eq_zero_of_lt (by omega) (by omega)
+      rw [Int.tdiv_neg] at h1; omega
+  rw [Lemma.toMatrix_smulL, this, zero_smul]
+
+/-! ## 3. matrix · vector -/
+
+theorem mulVec_mulVec {m n p : Nat} (a : Mat m n) (b : Mat n p) (v : Vec p) : (a.mul b).mulVec v = a.mulVec (b.mulVec v) :=
+  Lemma.Storage.ext_static (Lemma.isStatic_mulVec _ _) (Lemma.isStatic_mulVec _ _) fun i => by
+    have := congrFun (show ((a.mul b).mulVec v).toFun = (a.mulVec (b.mulVec v)).toFun by
+      simp only [Lemma.toFun_mulVec, Lemma.toMatrix_mul, Matrix.mulVec_mulVec]) i
+    simpa using this
+
+theorem mulVec_add {r c : Nat} (a : Mat r c) (v w : Vec c) : (a.mulVec (add v w)).toFun = (a.mulVec v).toFun + (a.mulVec w).toFun := by
+  simp only [Lemma.toFun_mulVec, Lemma.toFun_add, Matrix.mulVec_add]
+
+theorem mulVec_smul {r c : Nat} (a : Mat r c) (k : Int) (v : Vec c) : (a.mulVec (smulL k v)).toFun = k • (a.mulVec v).toFun := by
+  simp only [Lemma.toFun_mulVec, Lemma.toFun_smulL, Matrix.mulVec_smul]
+
+theorem add_mulVec {r c : Nat} (a b : Mat r c) (v : Vec c) : ((a.add b).mulVec v).toFun = (a.mulVec v).toFun + (b.mulVec v).toFun := by
+  simp only [Lemma.toFun_mulVec, Lemma.toMatrix_add, Matrix.add_mulVec]
+
+theorem identity_mulVec {n : Nat} (v : Vec n) : ((Mat.identity n).mulVec v).toFun = v.toFun := by
+  rw [Lemma.toFun_mulVec, Lemma.toMatrix_identity, Matrix.one_mulVec]
+
+/-- the rows of `A·v` are the dot products of the rows of `A` with `v` -/
+theorem get_mulVec {r c : Nat} (a : Mat r c) (v : Vec c) (i : Fin r) : (a.mulVec v).get i = dot (a.atR i) v := by
+  have := congrFun (Lemma.toFun_mulVec a v) i
+  rw [Lemma.dot_eq, Lemma.toFun_atR]
+  exact this
+
+/-! ## 4. vector / dim operators are component-wise -/
+
+theorem toFun_neg {n : Nat} (v : Vec n) : (neg v).toFun = -v.toFun := Lemma.toFun_neg v
+theorem toFun_add {n : Nat} (l r : Vec n) : (add l r).toFun = l.toFun + r.toFun := Lemma.toFun_add l r
+theorem toFun_sub {n : Nat} (l r : Vec n) : (sub l r).toFun = l.toFun - r.toFun := Lemma.toFun_sub l r
+theorem toFun_mul {n : Nat} (l r : Vec n) : (mul l r).toFun = l.toFun * r.toFun := Lemma.toFun_mul l r
+theorem toFun_smulR {n : Nat} (l : Vec n) (k : Int) : (smulR l k).toFun = k • l.toFun := Lemma.toFun_smulR l k
+theorem toFun_smulL {n : Nat} (k : Int) (r : Vec n) : (smulL k r).toFun = k • r.toFun := Lemma.toFun_smulL k r
+
+/-- per component, spelled out -/
+theorem get_ops {n : Nat} (l r : Vec n) (k : Int) (i : Fin n) :
+    (neg l).get i = -l.get i ∧ (add l r).get i = l.get i + r.get i ∧ (sub l r).get i = l.get i - r.get i ∧
+    (mul l r).get i = l.get i * r.get i ∧ (smulR l k).get i = l.get i * k ∧ (smulL k r).get i = k * r.get i := by
+  simp [neg, add, sub, mul, smulR, smulL]
+
+/-- `vector / vector`: a result exists iff no divisor component is zero, and is the truncated quotient per component -/
+theorem divV_some {n : Nat} (l r v : Vec n) :
+    divV l r = some v ↔ v.IsStatic ∧ ∀ i, r.get i ≠ 0 ∧ v.get i = Int.tdiv (l.get i) (r.get i) := Lemma.divV_eq_some l r v
+theorem divV_none {n : Nat} (l r : Vec n) : divV l r = none ↔ ∃ i, r.get i = 0 := Lemma.divV_eq_none l r
+theorem divS_some {n : Nat} (l v : Vec n) (k : Int) :
+    divS l k = some v ↔ v.IsStatic ∧ ∀ i, k ≠ 0 ∧ v.get i = Int.tdiv (l.get i) k := Lemma.divS_eq_some l v k
+theorem divS_none {n : Nat} (l : Vec n) (k : Int) : divS l k = none ↔ 0 < n ∧ k = 0 := Lemma.divS_eq_none l k
+
+theorem vadd_comm {n : Nat} (l r : Vec n) : add l r = add r l :=
+  Lemma.Storage.ext_static (Lemma.isStatic_add _ _) (Lemma.isStatic_add _ _) fun i => by simp [add, _root_.add_comm]
+
+theorem vadd_assoc {n : Nat} (a b c : Vec n) : add (add a b) c = add a (add b c) :=
+  Lemma.Storage.ext_static (Lemma.isStatic_add _ _) (Lemma.isStatic_add _ _) fun i => by simp [add, _root_.add_assoc]
+
+theorem smul_vadd {n : Nat} (k : Int) (a b : Vec n) : smulL k (add a b) = add (smulL k a) (smulL k b) :=
+  Lemma.Storage.ext_static (Lemma.isStatic_smulL _ _) (Lemma.isStatic_add _ _) fun i => by simp [add, smulL, _root_.mul_add]
+
+theorem vsmulR_eq_smulL {n : Nat} (v : Vec n) (k : Int) : smulR v k = smulL k v :=
+  Lemma.Storage.ext_static (Lemma.isStatic_smulR _ _) (Lemma.isStatic_smulL _ _) fun i => by simp [smulR, smulL, _root_.mul_comm]
+
+/-! ## 5. dot, length_square, cross -/
+
+theorem dot_eq {n : Nat} (l r : Vec n) : dot l r = l.toFun ⬝ᵥ r.toFun := Lemma.dot_eq l r
+
+/-- the plain-array meaning: `Σ l_i r_i` -/
+theorem dot_eq_sum {n : Nat} (l r : Vec n) : dot l r = ∑ i, l.get i * r.get i := by
+  rw [Lemma.dot_eq]; rfl
+
+theorem dot_comm {n : Nat} (l r : Vec n) : dot l r = dot r l := by
+  rw [Lemma.dot_eq, Lemma.dot_eq, dotProduct_comm]
+
+theorem dot_add {n : Nat} (a b c : Vec n) : dot a (add b c) = dot a b + dot a c := by
+  simp only [Lemma.dot_eq, Lemma.toFun_add, dotProduct_add]
+
+theorem dot_smul {n : Nat} (k : Int) (a b : Vec n) : dot a (smulL k b) = k * dot a b := by
+  simp only [Lemma.dot_eq, Lemma.toFun_smulL, dotProduct_smul, smul_eq_mul]
+
+theorem lengthSquare_eq {n : Nat} (v : Vec n) : lengthSquare v = ∑ i, v.get i * v.get i := by
+  rw [lengthSquare, dot_eq_sum]
+
+theorem lengthSquare_nonneg {n : Nat} (v : Vec n) : 0 ≤ lengthSquare v := by
+  rw [lengthSquare_eq]; exact Finset.sum_nonneg fun i _ => mul_self_nonneg _
+
+theorem lengthSquare_eq_zero_iff {n : Nat} (v : Vec n) : lengthSquare v = 0 ↔ ∀ i, v.get i = 0 := by
+  rw [lengthSquare_eq, Finset.sum_eq_zero_iff_of_nonneg fun i _ => mul_self_nonneg _]
+  simp
+
+theorem toFun_cross (l r : Vec 3) : (cross l r).toFun = crossProduct l.toFun r.toFun := Lemma.toFun_cross l r
+
+/-- anticommutative -/
+theorem cross_anticomm (l r : Vec 3) : neg (cross l r) = cross r l :=
+  Lemma.Storage.ext_static (Lemma.isStatic_neg _) (Lemma.isStatic_cross _ _) fun i => by
+    have := congrFun (show (neg (cross l r)).toFun = (cross r l).toFun by
+      rw [Lemma.toFun_neg, Lemma.toFun_cross, Lemma.toFun_cross, _root_.cross_anticomm]) i
+    simpa using this
+
+/-- orthogonal to both operands -/
+theorem dot_cross_left (l r : Vec 3) : dot l (cross l r) = 0 := by
+  rw [Lemma.dot_eq, Lemma.toFun_cross, dot_self_cross]
+theorem dot_cross_right (l r : Vec 3) : dot r (cross l r) = 0 := by
+  rw [Lemma.dot_eq, Lemma.toFun_cross, dot_cross_self]
+
+theorem cross_self_zero (v : Vec 3) (i : Fin 3) : (cross v v).get i = 0 := by
+  have := congrFun (show (cross v v).toFun = 0 by rw [Lemma.toFun_cross, cross_self]) i
+  simpa using this
+
+/-- Lagrange's identity `|l × r|² = |l|² |r|² − (l·r)²` -/
+theorem lagrange_identity (l r : Vec 3) :
+    lengthSquare (cross l r) = lengthSquare l * lengthSquare r - dot l r * dot l r := by
+  simp only [lengthSquare, Lemma.dot_eq, Lemma.toFun_cross, cross_dot_cross]
+  rw [dotProduct_comm r.toFun l.toFun]
+
+/-- scalar triple product = determinant of the matrix with rows `u, v, w` -/
+theorem triple_product (u v w : Vec 3) : dot u (cross v w) = Matrix.det ![u.toFun, v.toFun, w.toFun] := by
+  rw [Lemma.dot_eq, Lemma.toFun_cross, triple_product_eq_det]
+
+/-! ## 6. builders and element access -/
+
+theorem get_init {n : Nat} (f : Fin n → Int) (i : Fin n) : (init f).get i = f i := Lemma.get_init f i
+theorem get_null {n : Nat} (i : Fin n) : (null n).get i = 0 := Lemma.get_null i
+theorem get_fill {n : Nat} (value : Int) (i : Fin n) : (fill n value).get i = value := Lemma.get_fill value i
+
+theorem identity_entry (n : Nat) (i j : Fin n) : (Mat.identity n).atRC i j = if i = j then 1 else 0 := by
+  simp [Mat.identity, Fin.ext_iff]
+
+theorem toMatrix_translation (tx ty tz : Int) :
+    (Mat.translation tx ty tz).toMatrix = !![1, 0, 0, tx; 0, 1, 0, ty; 0, 0, 1, tz; 0, 0, 0, 1] := Lemma.toMatrix_translation tx ty tz
+
+theorem toMatrix_scaling (sx sy sz : Int) :
+    (Mat.scaling sx sy sz).toMatrix = Matrix.diagonal ![sx, sy, sz, 1] := Lemma.toMatrix_scaling_diagonal sx sy sz
+
+theorem translationV_eq (v : Vec 3) : Mat.translationV v = Mat.translation (v.get 0) (v.get 1) (v.get 2) := rfl
+theorem scalingV_eq (v : Vec 3) : Mat.scalingV v = Mat.scaling (v.get 0) (v.get 1) (v.get 2) := rfl
+
+/-- a translation moves the point `(p, 1)` by `(tx, ty, tz)` -/
+theorem translation_mulVec (tx ty tz : Int) (p : Vec 4) (h : p.get 3 = 1) :
+    ((Mat.translation tx ty tz).mulVec p).toFun = ![p.get 0 + tx, p.get 1 + ty, p.get 2 + tz, 1] := by
+  rw [Lemma.toFun_mulVec, Lemma.toMatrix_translation]
+  ext i
+  fin_cases i <;> simp [Matrix.mulVec, dotProduct, Fin.sum_univ_four, h]
+
+/-- translations compose by adding the offsets -/
+theorem translation_mul (a b c x y z : Int) :
+    (Mat.translation a b c).mul (Mat.translation x y z) = Mat.translation (a + x) (b + y) (c + z) :=
+  Lemma.Mat.ext_static (Lemma.Mat.isStatic_mul _ _) (Lemma.Mat.isStatic_translation _ _ _) (by
+    rw [Lemma.toMatrix_mul]
+    simp only [Lemma.toMatrix_translation]
+    ext i j
+    fin_cases i <;> fin_cases j <;> simp [Matrix.mul_apply, Fin.sum_univ_four, _root_.add_comm])
+
+theorem det_scaling (sx sy sz : Int) : (Mat.scaling sx sy sz).det = sx * sy * sz := by
+  rw [Lemma.det_eq, Lemma.toMatrix_scaling_diagonal, Matrix.det_diagonal]
+  simp [Fin.prod_univ_four]
+
+theorem det_translation (tx ty tz : Int) : (Mat.translation tx ty tz).det = 1 := by
+  rw [Lemma.det_eq, Lemma.toMatrix_translation, Matrix.det_succ_column_zero]
+  simp [Fin.sum_univ_succ, Matrix.det_fin_three, Fin.succAbove, Matrix.submatrix]
+
+/-- a row of a matrix (the row view) has the entries of that row; `at_r_c` is `at<j>` of the row -/
+theorem get_atR {r c : Nat} (m : Mat r c) (i : Fin r) (j : Fin c) : (m.atR i).get j = m.atRC i j := rfl
+
+/-- the row constructor `object(row(…), …)` puts row `i` at row `i` -/
+theorem atRC_ofRows {r c : Nat} (rows : Fin r → Vec c) (i : Fin r) (j : Fin c) : (Mat.ofRows rows).atRC i j = (rows i).get j :=
+  Lemma.atRC_ofRows rows i j
+
+theorem ofRows_atR {r c : Nat} (m : Mat r c) : (Mat.ofRows fun i => fromArray (toArray (m.atR i))).toMatrix = m.toMatrix :=
+  Lemma.toMatrix_ofRows_atR m
+
+/-- run-time access: defined exactly inside the bounds -/
+theorem getUnsafe_ok {n : Nat} (v : Vec n) (i : Nat) (h : i < n) : getUnsafe v i = .ok (v.get ⟨i, h⟩) := Lemma.getUnsafe_ok v i h
+theorem getUnsafe_oob {n : Nat} (v : Vec n) (i : Nat) (h : n ≤ i) : getUnsafe v i = .error .oob := Lemma.getUnsafe_oob v i h
+theorem mat_getUnsafe_ok {r c : Nat} (m : Mat r c) (j : Nat) (h : j < r) : m.getUnsafe j = .ok (m.atR ⟨j, h⟩) := Lemma.Mat.getUnsafe_ok m j h
+theorem mat_getUnsafe_oob {r c : Nat} (m : Mat r c) (j : Nat) (h : r ≤ j) : m.getUnsafe j = .error .oob := Lemma.Mat.getUnsafe_oob m j h
+
+theorem xyzw_eq {n : Nat} (v : Vec n) (h : 3 < n) :
+    x v (by omega) = v.get ⟨0, by omega⟩ ∧ y v (by omega) = v.get ⟨1, by omega⟩ ∧ z v (by omega) = v.get ⟨2, by omega⟩ ∧ w v h = v.get ⟨3, h⟩ :=
+  ⟨rfl, rfl, rfl, rfl⟩
+
+/-- `to_array` / copying into static storage preserves every component, for every storage kind -/
+theorem get_toArray {n : Nat} (s : Storage n) (i : Fin n) : (fromArray (toArray s)).get i = s.get i := by simp
+
+/-! ## 7. casts -/
+
+theorem get_structureCast {n : Nat} (conv : Int → Int) (src : Storage n) (i : Fin n) :
+    (structureCast conv src).get i = conv (src.get i) := Lemma.get_structureCast conv src i
+
+theorem toMatrix_structureCast {r c : Nat} (conv : Int → Int) (a : Mat r c) :
+    (a.structureCast conv).toMatrix = a.toMatrix.map conv := Lemma.toMatrix_structureCast conv a
+
+theorem get_narrowCast {n m : Nat} (h : m < n) (src : Vec n) (i : Fin m) :
+    (narrowCast h src).get i = src.get ⟨i.val, Nat.lt_trans i.isLt h⟩ := Lemma.get_narrowCast h src i
+
+theorem get_pushBack {n : Nat} (src : Vec n) (value : Int) (i : Fin (n + 1)) :
+    (pushBack src value).get i = if h : i.val < n then src.get ⟨i.val, h⟩ else value := Lemma.get_pushBack src value i
+
+/-- `narrow_cast` undoes `push_back` -/
+theorem narrowCast_pushBack {n : Nat} (src : Vec n) (value : Int) (i : Fin n) :
+    (narrowCast (Nat.lt_succ_self n) (pushBack src value)).get i = src.get i := by
+  rw [Lemma.get_narrowCast, Lemma.get_pushBack]; simp
+
+/-! ## 8. comparison = list equality / lexicographic order -/
+
+theorem eq_iff_components {n : Nat} (a b : Storage n) : arrayEqual a b = true ↔ ∀ i, a.get i = b.get i := Lemma.arrayEqual_iff a b
+theorem eq_iff_toList {n : Nat} (a b : Storage n) : arrayEqual a b = true ↔ a.toList = b.toList := by
+  rw [Lemma.arrayEqual_iff, Lemma.toList_eq_iff]
+theorem ne_eq_not {n : Nat} (a b : Storage n) : ne a b = !arrayEqual a b := rfl
+theorem mat_eq_iff {r c : Nat} (a b : Mat r c) : a.eq b = true ↔ a.toMatrix = b.toMatrix := Lemma.Mat.eq_iff a b
+theorem mat_ne_eq_not {r c : Nat} (a b : Mat r c) : a.ne b = !a.eq b := rfl
+
+/-- `<` is the strict lexicographic order of the component lists -/
+theorem lt_iff_toList_lt {n : Nat} (a b : Storage n) : arrayLess a b = true ↔ a.toList < b.toList := Lemma.arrayLess_iff_lt a b
+/-- … i.e. the first differing component decides -/
+theorem lt_iff_first_difference {n : Nat} (a b : Storage n) : arrayLess a b = true ↔ LexLt a.get b.get := Lemma.arrayLess_iff_lexLt a b
+
+theorem gt_le_ge {n : Nat} (a b : Storage n) :
+    gt a b = arrayLess b a ∧ le a b = !arrayLess b a ∧ ge a b = !arrayLess a b := ⟨rfl, rfl, rfl⟩
+
+theorem lt_irrefl {n : Nat} (a : Storage n) : arrayLess a a = false := by
+  have : ¬ (arrayLess a a = true) := by rw [Lemma.arrayLess_iff_lt]; exact _root_.lt_irrefl _
+  simpa using this
+
+theorem lt_trans {n : Nat} (a b c : Storage n) (h1 : arrayLess a b = true) (h2 : arrayLess b c = true) : arrayLess a c = true := by
+  rw [Lemma.arrayLess_iff_lt] at *; exact _root_.lt_trans h1 h2
+
+/-- exactly one of `a < b`, `a == b`, `b < a` -/
+theorem lt_trichotomy {n : Nat} (a b : Storage n) :
+    (arrayLess a b = true ∧ arrayEqual a b = false ∧ arrayLess b a = false) ∨
+    (arrayLess a b = false ∧ arrayEqual a b = true ∧ arrayLess b a = false) ∨
+    (arrayLess a b = false ∧ arrayEqual a b = false ∧ arrayLess b a = true) := by
+  have hlt : ∀ x y : Storage n, arrayLess x y = false ↔ ¬ (x.toList < y.toList) := fun x y => by
+    rw [← Lemma.arrayLess_iff_lt]; simp
+  have heq : arrayEqual a b = false ↔ ¬ (a.toList = b.toList) := by rw [← eq_iff_toList]; simp
+  rw [Lemma.arrayLess_iff_lt, Lemma.arrayLess_iff_lt, eq_iff_toList, hlt, hlt, heq]
+  rcases _root_.lt_trichotomy a.toList b.toList with h | h | h
+  · exact Or.inl ⟨h, ne_of_lt h, not_lt_of_gt h⟩
+  · exact Or.inr (Or.inl ⟨by rw [h]; exact _root_.lt_irrefl _, h, by rw [h]; exact _root_.lt_irrefl _⟩)
+  · exact Or.inr (Or.inr ⟨not_lt_of_gt h, fun e => absurd h (by rw [e]; exact _root_.lt_irrefl _), h⟩)
+
+/-! ## 9. bit strings -/
+
+theorem bitStrings_length (n : Nat) : (bitStrings n).length = 2 ^ (n + 1) := Lemma.length_bitStrings n
+
+/-- vector number `k` of `bit_strings<T, n + 1>()` has binary digit `i` of `k` as component `i` -/
+theorem bitStrings_get (n : Nat) (k : Nat) (hk : k < (bitStrings n).length) (i : Fin (n + 1)) :
+    ((bitStrings n)[k]).get i = bitOf k i.val := Lemma.get_bitStrings n k hk i
+
+/-! ## non-vacuity and the repaired defect -/
+
+/-- a concrete non-trivial instance of the hypotheses: a unimodular 2×2 matrix in view storage -/
+example : ∃ a : Mat 2 2, ¬ a.IsStatic ∧ a.det = 1 ∧ a.toMatrix = !![2, 1; 1, 1] := by
+  refine ⟨⟨Storage.buffer 6 #v[7, 2, 1, 1, 1, 9] 1 (by decide)⟩, ?_, by decide, ?_⟩
+  · rintro ⟨v, hv⟩; cases hv
+  · ext i j; fin_cases i <;> fin_cases j <;> rfl
+
+example : (⟨fromArray #v[1, 2, 3, 4, 5, 6, 7, 8, 10]⟩ : Mat 3 3).det = -3 := by decide
+example : arrayLess (fromArray #v[1, 2, 3]) (fromArray #v[1, 3, 0]) = true := by decide
+example : (cross (fromArray #v[1, 0, 0]) (fromArray #v[0, 1, 0])).toList = [0, 0, 1] := by decide
+
+/-- after fix 88691c8: the adjugate of a 1×1 matrix is `[1]` and `A · adj A = det A · 1` holds -/
+example : ((Mat.single 5).adjugate).atRC 0 0 = 1 := by decide
+
+/-- before the fix (`determinant` of the 0×0 matrix = 0): the adjugate of `[5]` was `[0]`, and
+    `A · adj A = [0] ≠ [5] = det A · 1` — the property was false for every 1×1 matrix with non-zero entry -/
+example : ((Mat.single 5).oldAdjugate).atRC 0 0 = 0 := by decide
+example : ((Mat.single 5).mul (Mat.single 5).oldAdjugate).atRC 0 0 ≠ (Mat.smulL (Mat.single 5).oldDet (Mat.identity 1)).atRC 0 0 := by decide
+
+end Fcppt.C14
